@@ -6,7 +6,9 @@
 package vsync
 
 import (
+	"fmt"
 	"sync"
+	"time"
 
 	"github.com/containers/nri-plugins/pkg/verif/sched"
 )
@@ -27,9 +29,24 @@ type RWMutex struct {
 	readers map[*sched.T]int
 }
 
+// Patience, when set by a harness that runs handlers one after another (no scheduler), bounds the wait for the lock: in
+// such a harness nobody else can hold it, so a lock that stays taken was leaked by an earlier request that returned
+// without releasing it. The wait then ends in a panic (reported by the harness) instead of hanging the worker.
+var Patience time.Duration
+
 func (m *RWMutex) Lock() {
 	t := sched.Current()
 	if t == nil {
+		if Patience > 0 {
+			deadline := time.Now().Add(Patience)
+			for !m.real.TryLock() {
+				if time.Now().After(deadline) {
+					panic(fmt.Sprintf("vsync: the lock is still held after %v although no request is in progress: an earlier request returned without releasing it", Patience))
+				}
+				time.Sleep(200 * time.Microsecond)
+			}
+			return
+		}
 		m.real.Lock()
 		return
 	}
